@@ -12,6 +12,11 @@ ASSUMPTIONS = [
 
 
 def known_empty_graph(case, failing):
+    """layered_label_propagation* on the graph without nodes: num_arcs / num_nodes panics"""
+    if case.get("_chan") == "llprun" and case.get("n") == "0" and any("divide_by_zero" in f for f in failing):
+        return ("layered_label_propagation_labels_only panics (attempt to divide by zero, algo/src/llp/mod.rs: "
+                "hash_map_init = num_arcs / num_nodes) on the empty graph instead of storing empty labelings or "
+                "returning an error")
     return None
 
 
